@@ -227,6 +227,9 @@ def decode(code):
         t = tun[which % len(tun)]
         if t["lvl"] == 0:
             case["pre"].append({"a": t["a"], "inst": which % len(case["names"]), "value": value_for(t["kind"], v) if t["kind"][:2] != "e_" or True else []})
+            if (which + v) % 5 == 4:
+                # a dashboard has announced the topic (created its publisher) but not sent a value yet
+                case["pre"][-1]["announce_only"] = True
     ops = []
     for kind, inst, which, v in ops_c:
         t = tun[which % len(tun)]
@@ -307,6 +310,8 @@ class C09(Lab):
                 try:
                     pub = pubs.get(key) or publisher_for(inst, t["kind"], key)
                     pubs[key] = pub
+                    if p.get("announce_only") and key not in pre:
+                        continue  # the topic exists, it holds no value: the default is what everybody must see
                     pub.set(materialize(t["kind"], p["value"]))
                 except Exception as e:
                     raise exc_violation("C09", e, "harness: publishing a pre-existing value")
